@@ -216,6 +216,34 @@ def canon_marks(times, marks):
 
 
 # ----------------------------------------------------------------------------- the checks on one case
+HARNESS_DIR = str(Path(__file__).resolve().parent)
+
+
+def observe(ck, what, fn):
+    """read something OFF a library object (an attribute, an accessor) — never the property's observable itself.
+    Names of attributes are not part of what is verified: when the read fails (AttributeError / TypeError / KeyError /
+    IndexError) the observation is simply unavailable — bucketed and noted, never a violation, never a mismatch.
+    -> (available, value)"""
+    try:
+        return True, fn()
+    except (AttributeError, TypeError, KeyError, IndexError) as e:
+        ck.bucket(f"observation-unavailable/{what}")
+        note = f"observation unavailable ({what}): {type(e).__name__}: {str(e)[:100]}"
+        if note not in ck.notes:
+            ck.notes.append(note)
+        return False, None
+
+
+def harness_introspection(e):
+    """an AttributeError raised by a line of the HARNESS (innermost frame in harness/) on something that is not an
+    unusable output (None): the harness looked for a name the object does not have — not a finding"""
+    import traceback
+
+    tb = traceback.extract_tb(e.__traceback__)
+    return (isinstance(e, AttributeError) and tb and tb[-1].filename.startswith(HARNESS_DIR) and "'NoneType'" not in str(e))
+
+
+
 class Runner:
     def __init__(self, ck: Check, drv):
         self.ck = ck
@@ -235,6 +263,9 @@ class Runner:
             if isinstance(e, InfraError):
                 raise
             tb = traceback.extract_tb(e.__traceback__)[-1]
+            if harness_introspection(e):
+                self.ck.mismatch(f"{name}: the harness could not observe an object ({type(e).__name__}: {str(e)[:120]} at {tb.name}:{tb.lineno})", {"check": name})
+                return
             case = next((x for x in a if isinstance(x, dict) and "kind" in x), None)
             if case is None:
                 case = {"kind": "constant", "samp": [F(0), F(0)], "coal": [F(1)], "thetas": [F(1)], "note": name}
@@ -300,9 +331,17 @@ class Runner:
         grid = case.get("grid", [])
         rep = self.drv.ask(f"events Q | {Qx(samp + coal)} | {Qx(grid)}")
         terms = self.drv.ask(f"terms Q | {Qx(samp + coal)} | {Qx(grid)}")
+        d = distribution(case)
+        # an internal of the implementation (no public accessor for the sorted events): observed when it is there
+        have, st = observe(self.ck, "sorted-terms", lambda: d._sorted_terms)
+        if not have:
+            return
         try:
-            d = distribution(case)
-            mask, lch, dur = d._sorted_terms(T(samp + coal))
+            have, out = observe(self.ck, "sorted-terms", lambda: tuple(st(T(samp + coal))))
+            if not have or len(out) != 3:
+                self.ck.bucket("observation-unavailable/sorted-terms")
+                return
+            mask, lch, dur = out
             times = sorted(samp + coal + list(grid))
             impl_marks = canon_marks(times, [int(x) for x in mask.tolist()])
             impl_terms = [F(float(a)) * F(float(b)) for a, b in zip(lch.tolist(), dur.tolist())]
@@ -746,7 +785,12 @@ def json_paths(R: Runner, rng, kind, n):
             continue
         if vname.endswith("cutoff"):
             # torch.linspace is float32 by default: take the grid the model actually holds
-            c = dict(c, grid=FX(m.grid.tensor))
+            have, held = observe(R.ck, "model.grid", lambda: FX(m.grid.tensor))
+            if not have:
+                import torch
+
+                held = FX(torch.linspace(0, float(js["cutoff"]), len(c["thetas"]))[1:].to(torch.float64))  # the documented construction
+            c = dict(c, grid=held)
             if any(gp in coal for gp in c["grid"]):
                 continue
         o, scale = oracle_value(c)
